@@ -136,7 +136,34 @@ func fixedCases() []Case {
 	// header1.xml is the even-page header of the package: setting the default header must not touch it
 	evenHdr := rich
 	evenHdr.Sect = &foreign.Sect{W: 11906, H: 16838, Margin: 1440, HeaderRefs: []foreign.HRef{{Type: "even", RelID: "rId7"}}}
+	// a package with notes parts the way Word writes them (one line, nothing between the last note and the end tag of
+	// the root; CRLF after the declaration) and calls that are all REJECTED: unknown note ids, indexes outside the body,
+	// page settings that are none, a picture file that does not exist. Nothing is an edit, every part stays as it was.
+	notes := foreign.Minimal()
+	const wordDecl = `<?xml version="1.0" encoding="UTF-8" standalone="yes"?>` + "\r\n"
+	notes.Parts = []foreign.Part{
+		{Name: "word/styles.xml", CT: foreign.CTStyle, Override: true, XML: stylesXML, Kind: "styles"},
+		{Name: "word/footnotes.xml", CT: "application/vnd.openxmlformats-officedocument.wordprocessingml.footnotes+xml", Override: true, Kind: "footnotes",
+			XML: wordDecl + `<w:footnotes xmlns:w="` + foreign.NSW + `"><w:footnote w:type="separator" w:id="-1"><w:p><w:r><w:separator/></w:r></w:p></w:footnote><w:footnote w:type="continuationSeparator" w:id="0"><w:p><w:r><w:continuationSeparator/></w:r></w:p></w:footnote><w:footnote w:id="1"><w:p><w:r><w:footnoteRef/></w:r><w:r><w:t xml:space="preserve"> first note</w:t></w:r></w:p></w:footnote></w:footnotes>`},
+		{Name: "word/endnotes.xml", CT: "application/vnd.openxmlformats-officedocument.wordprocessingml.endnotes+xml", Override: true, Kind: "endnotes",
+			XML: wordDecl + `<w:endnotes xmlns:w="` + foreign.NSW + `"><w:endnote w:type="separator" w:id="-1"><w:p><w:r><w:separator/></w:r></w:p></w:endnote><w:endnote w:id="1"><w:p><w:r><w:endnoteRef/></w:r><w:r><w:t xml:space="preserve"> first endnote</w:t></w:r></w:p></w:endnote></w:endnotes>`},
+	}
+	notes.DocRels = []foreign.Rel{
+		{ID: "rId1", Type: foreign.RelStyles, Target: "styles.xml"},
+		{ID: "rId2", Type: foreign.RelFootnotes, Target: "footnotes.xml"},
+		{ID: "rId3", Type: foreign.RelEndnotes, Target: "endnotes.xml"},
+	}
+	notes.Body = []foreign.Block{para(run1("Body text"), foreign.Inline{K: "r", Run: &foreign.Run{Pieces: []foreign.Piece{{K: "fnref", N: 1}}}})}
+	notes.Sect = &foreign.Sect{W: 11906, H: 16838, Margin: 1440}
+	rejectedOnly := []ops.Op{
+		{K: "rmfootnote", S: []string{"42"}}, {K: "rmendnote", S: []string{"42"}}, {K: "rmfootnote", S: []string{"x"}},
+		{K: "rmparaat", I: []int{0}}, {K: "rmelemat", I: []int{0}}, // selector 0 = index -1
+		{K: "pagesettings", I: []int{0}}, {K: "pagesettings", I: []int{1}}, {K: "imagefilebad", I: []int{0}}, {K: "imagefilebad", I: []int{1}},
+	}
+	plain := foreign.Minimal() // no notes parts at all: the rejected calls must not add one
 	return []Case{
+		{Pkg: notes, Ops: rejectedOnly},
+		{Pkg: plain, Ops: rejectedOnly, OpenFile: true, SaveFile: true},
 		{Pkg: rich},
 		{Pkg: rich, OpenFile: true, SaveFile: true, Ops: edits},
 		{Pkg: evenHdr, Ops: []ops.Op{{K: "header", I: []int{0}, S: []string{"new default header"}}, {K: "footer", I: []int{1}, S: []string{"first-page footer"}}}},
